@@ -17,4 +17,4 @@ INIT MCInit
 NEXT MCNext
 CHECK_DEADLOCK FALSE
 VIEW View
-INVARIANTS Inv_Order Inv_CommitBeforeApply Inv_FailedBlocks Inv_ConsistencyCommitted Inv_ConsistencyApplied Inv_ConsistencyDevice Inv_Terminates Inv_SyncCompletes
+INVARIANTS Inv_Order Inv_CommitBeforeApply Inv_FailedBlocks Inv_ConsistencyCommitted Inv_ConsistencyApplied Inv_ConsistencyDevice Inv_Terminates Inv_SyncCompletes Inv_RollbackRestores Inv_AppliedIsCommitted
